@@ -310,11 +310,70 @@ let c14r_line id segs obs =
     | _ -> "fail:malformed_obs" in
   print_string id; print_char '\t'; print_string model_obs; print_char '\t'; print_endline verdict
 
+(* ======================================================================== C07 *)
+(* Record: id, "c07", selector, root, blocks, observation (A<trace>#M<trace> | compile:<class>) *)
+let quirk_names = ["union_dup"; "bare_edge_panic"; "exhausted_unwrap"; "shared_depth"]
+let quirks_of_mask m =
+  { q_union_dup = (m land 1 = 0); q_bare_edge_panic = (m land 2 = 0);
+    q_exhausted_unwrap = (m land 4 = 0); q_shared_depth = (m land 8 = 0) }
+let popcount m = (m land 1) + ((m lsr 1) land 1) + ((m lsr 2) land 1) + ((m lsr 3) land 1)
+
+let split_am (obs : string) : (string * string) option =
+  if String.length obs > 0 && obs.[0] = 'A' then
+    match String.index_opt obs '#' with
+    | Some i when i + 1 < String.length obs && obs.[i + 1] = 'M' ->
+      Some (String.sub obs 1 (i - 1), String.sub obs (i + 2) (String.length obs - i - 2))
+    | _ -> None
+  else None
+
+let c07_line id sel root blocks obs =
+  match compile (dm_of_string sel) with
+  | CErr -> print_string id; print_string "\tcompile:err\t"; print_endline (if has_prefix obs "compile:" then "ok" else "fail:compile_rejects")
+  | CUnsupported -> print_string id; print_endline "\tcompile:unsupported\tskip"
+  | COk s ->
+    let g = parse_blocks blocks and r = dm_of_string root in
+    let adv = trace_text false (walk_adv pinned g fuel r s) in
+    let mat = trace_text false (walk_matching pinned g fuel r s) in
+    let model_obs = "A" ^ adv ^ "#M" ^ mat in
+    let spec = trace_text false (denote_sel g fuel r s) in
+    let verdict =
+      match split_am obs with
+      | None -> "fail:malformed_obs"
+      | Some (ia, im) ->
+        let fails = ref [] in
+        let fail x = if not (List.mem x !fails) then fails := x :: !fails in
+        (* the matching walk sees exactly the matched visits (and the same loads) of the advanced walk *)
+        let (ta, ca) = parse_trace ia and (tm, cm) = parse_trace im in
+        let is_m t = t.load || (match String.split_on_char ':' t.text with _ :: _ :: "m" :: _ -> true | _ -> false) in
+        if texts (List.filter is_m ta) <> texts tm || ca <> cm then fail "matching_subset";
+        if ia <> spec then begin
+          if ia <> adv then fail "walk_differs"
+          else begin
+            (* the walk is the pinned model's: which repairs make the model meet the specification? *)
+            let best = ref None in
+            for m = 1 to 15 do
+              if trace_text false (walk_adv (quirks_of_mask m) g fuel r s) = spec then
+                match !best with
+                | Some b when popcount b <= popcount m -> ()
+                | _ -> best := Some m
+            done;
+            match !best with
+            | None -> fail "spec_gap"
+            | Some m -> List.iteri (fun i nm -> if m land (1 lsl i) <> 0 then fail nm) quirk_names
+          end
+        end;
+        if !fails = [] then "ok" else "fail:" ^ String.concat "," (List.rev !fails) in
+    print_string id; print_char '\t'; print_string model_obs; print_char '\t'; print_endline verdict
+
 let () =
   iter_lines (fun line ->
+      try
       match split_tab line with
       | id :: "c15" :: sel :: root :: blocks :: ctl :: obs :: _ -> c15_line id sel root blocks ctl obs
+      | id :: "c07" :: sel :: root :: blocks :: obs :: _ -> c07_line id sel root blocks obs
       | id :: "c14v" :: sel :: root :: blocks :: obs :: _ -> c14v_line id sel root blocks obs
       | id :: "c14p" :: root :: blocks :: path :: obs :: _ -> c14p_line id root blocks path obs
       | id :: "c14r" :: segs :: obs :: _ -> c14r_line id segs obs
-      | _ -> ())
+      | _ -> ()
+      with Stack_overflow ->
+        (match split_tab line with id :: _ -> print_string id; print_endline "\tmodel:stack_overflow\tskip" | _ -> ()))
